@@ -45,7 +45,8 @@ type c16Result struct {
 	inconclusive string
 	iptDump      string
 	setDump      string
-	stageDumps   map[string][2]string // transition mode: stage -> filter dump, ipset dump
+	stageDumps   map[string][2]string  // transition mode: stage -> filter dump, ipset dump
+	obs          map[string]*violation // observations that are not violations (state right after the handlers)
 }
 
 func (r *c16Result) addViol(sig, msg string, obs interface{}) {
@@ -612,7 +613,7 @@ func evalC16(c *Cluster) *c16Result {
 	rs := snapshot(e.ipt, e.sets)
 	res.iptDump, res.setDump = e.ipt.Dump("filter"), e.sets.Dump()
 	res.shapes = shapesOf(c)
-	judgeFlows(c, rs, nil, "", false, res)
+	judgeFlows(c, rs, nil, "", false, false, res)
 	return res
 }
 
@@ -620,7 +621,7 @@ func evalC16(c *Cluster) *c16Result {
 // a fresh manager installs for the same cluster: a mismatch the fresh rules do not have is explained by state left
 // over from the manager's history (stage names where in the history the rules were judged) instead of by the policy
 // shapes.
-func judgeFlows(c *Cluster, rs, fresh *ruleset, stage string, rejectedBatch bool, res *c16Result) {
+func judgeFlows(c *Cluster, rs, fresh *ruleset, stage string, rejectedBatch, observeOnly bool, res *c16Result) {
 	podIPs := map[uint32]*Pod{}
 	var eps []Endpoint
 	for i := range c.Pods {
@@ -702,8 +703,24 @@ func judgeFlows(c *Cluster, rs, fresh *ruleset, stage string, rejectedBatch bool
 			RefIsolated: isolated, RefAllowed: allowed, RefAdmits: admitNames(dir, admits), Walker: wr.Verdict,
 			Path: wr.Path, Explanation: text}
 		for _, s := range sigs {
-			res.addViol(s, fmt.Sprintf("%s %s->%s %s/%d: API semantics say %s, installed rules say %s (%s)", dir,
-				ipStr(src.IP), ipStr(dst.IP), proto, port, ad(allowed), wr.Verdict, text), fw)
+			msg := fmt.Sprintf("%s %s->%s %s/%d: API semantics say %s, installed rules say %s (%s)", dir,
+				ipStr(src.IP), ipStr(dst.IP), proto, port, ad(allowed), wr.Verdict, text)
+			if staleState && observeOnly {
+				// the handlers are a fast path; the property speaks about the state a full sync establishes. What is only
+				// wrong between the handlers and the next full sync is recorded, not reported.
+				class := strings.TrimSuffix(strings.TrimPrefix(s, "c16-"), stage)
+				res.counters["after_events_only_mismatch:"+class]++
+				if res.obs == nil {
+					res.obs = map[string]*violation{}
+				}
+				if o, ok := res.obs[s]; ok {
+					o.Count++
+				} else {
+					res.obs[s] = &violation{Sig: s, Msg: msg, Flow: fw, Count: 1}
+				}
+				continue
+			}
+			res.addViol(s, msg, fw)
 		}
 		return allowed, wr, false
 	}
